@@ -23,9 +23,40 @@ pub fn ask(lines: &[String]) -> Vec<String> {
     out.into_iter().flatten().collect()
 }
 
+/// seconds one line may take before the driver process is killed and the line answered `model-timeout`
+const LINE_TIMEOUT_S: u64 = 120;
+pub static TIMEOUTS: std::sync::atomic::AtomicU64 = std::sync::atomic::AtomicU64::new(0);
+
+/// answers with which the executable model says "not compared" (cost guard in the driver, or killed after the time limit)
+pub fn outside_domain(answer: &str) -> bool {
+    answer == "model-timeout" || answer.split(' ').any(|t| t == "tooslow")
+}
+
 pub fn ask_one(lines: &[String]) -> Vec<String> {
+    let mut answers = Vec::with_capacity(lines.len());
+    // a line on which the driver exceeds the time limit is answered `model-timeout`; the rest go to a fresh driver
+    while answers.len() < lines.len() {
+        let start = answers.len();
+        let (got, timed_out) = ask_proc(&lines[start..]);
+        let n = got.len();
+        answers.extend(got);
+        if timed_out {
+            TIMEOUTS.fetch_add(1, std::sync::atomic::Ordering::Relaxed);
+            eprintln!("model driver exceeded {} s on one line; killed, line answered model-timeout", LINE_TIMEOUT_S);
+            answers.push("model-timeout".to_string());
+        } else if n < lines.len() - start {
+            eprintln!("model driver answered {} of {} lines (crashed?)", n, lines.len() - start);
+            // the line it died on is reported with the case attached; the rest go to a fresh driver
+            answers.push("model-died".to_string());
+        }
+    }
+    answers
+}
+
+/// one driver process; returns the answers received and whether it had to be killed for exceeding the time limit
+fn ask_proc(lines: &[String]) -> (Vec<String>, bool) {
     if lines.is_empty() {
-        return vec![];
+        return (vec![], false);
     }
     let mut child = Command::new(model_path())
         .stdin(Stdio::piped())
@@ -39,6 +70,8 @@ pub fn ask_one(lines: &[String]) -> Vec<String> {
     let mut stdin = child.stdin.take().unwrap();
     let stdout = child.stdout.take().unwrap();
     let mut answers = Vec::with_capacity(lines.len());
+    let mut timed_out = false;
+    let (tx, rx) = std::sync::mpsc::channel::<String>();
     std::thread::scope(|s| {
         s.spawn(move || {
             for l in lines {
@@ -49,25 +82,33 @@ pub fn ask_one(lines: &[String]) -> Vec<String> {
             }
             drop(stdin);
         });
-        let rd = BufReader::with_capacity(1 << 20, stdout);
-        for l in rd.lines() {
-            match l {
+        s.spawn(move || {
+            let rd = BufReader::with_capacity(1 << 20, stdout);
+            for l in rd.lines() {
+                match l {
+                    Ok(l) => {
+                        if tx.send(l).is_err() {
+                            break;
+                        }
+                    }
+                    Err(_) => break,
+                }
+            }
+        });
+        loop {
+            match rx.recv_timeout(std::time::Duration::from_secs(LINE_TIMEOUT_S)) {
                 Ok(l) => answers.push(l),
-                Err(_) => break,
+                Err(std::sync::mpsc::RecvTimeoutError::Timeout) => {
+                    timed_out = true;
+                    let _ = child.kill();
+                    break;
+                }
+                Err(std::sync::mpsc::RecvTimeoutError::Disconnected) => break,
             }
         }
+        drop(rx);
     });
     let _ = child.wait();
-    if answers.len() != lines.len() {
-        eprintln!(
-            "model driver answered {} of {} lines (crashed?)",
-            answers.len(),
-            lines.len()
-        );
-        // pad so that callers report the disagreement with the case attached
-        while answers.len() < lines.len() {
-            answers.push("model-died".to_string());
-        }
-    }
-    answers
+    answers.truncate(lines.len());
+    (answers, timed_out)
 }
